@@ -3445,6 +3445,25 @@ SPECS_C09 = [
          rtype=TRES(TT(TZn(2), TZn(2))), doc='the same with a 2-d scratch array: also the scratch-size check',
          fallback=_FB_FFT.format(scr='if negb ((fst fft_shape <=? fst scratch_shape) && '
                                      '(snd fft_shape <=? snd scratch_shape)) then Err ValueError else ')),
+    # /repo 1b12b57: the transformed grid is cropped (lentil.pad) to the output shape before the Field is stored
+    dict(_FFT_COMMON, name='fft_crop_shape', params=_FFT_PARAMS, rtype=TRES(TZn(2)),
+         observe_calls={'PAD': 'lentil.pad'}, observe='tuple(PAD_field[1])',
+         doc='propagate_fft for a 2-tuple shape, scratch=None: the shape handed to the last lentil.pad(field, .) before '
+             'the Field is stored - the transformed grid is cropped to shape_out, the shape of the returned Wavefront '
+             'times oversample',
+         fallback=_FB_FFT.format(scr='').replace('Ok ((fst shape * oversample, snd shape * oversample), shape)',
+                                                 'Ok (fst shape * oversample, snd shape * oversample)')),
+    dict(_FFT_COMMON, name='fft_crop_shape_default', params=dict(_FFT_PARAMS, shape=NONE_K), rtype=TRES(TZn(2)),
+         observe_calls={'PAD': 'lentil.pad'}, observe='tuple(PAD_field[1])',
+         doc='the same with shape=None: the crop is to the whole grid (no crop)',
+         fallback='if has_tilt then Err NotImplementedErr else Ok fft_shape'),
+    dict(_FFT_COMMON, name='fft_crop_shape_scratch', params=dict(_FFT_PARAMS, scratch=ARR(2)), rtype=TRES(TZn(2)),
+         observe_calls={'PAD': 'lentil.pad'}, observe='tuple(PAD_field[1])',
+         doc='the same with a 2-d scratch array (the scratch path has no other lentil.pad call)',
+         fallback=_FB_FFT.format(scr='if negb ((fst fft_shape <=? fst scratch_shape) && '
+                                     '(snd fft_shape <=? snd scratch_shape)) then Err ValueError else ')
+         .replace('Ok ((fst shape * oversample, snd shape * oversample), shape)',
+                  'Ok (fst shape * oversample, snd shape * oversample)')),
 ]
 
 # one table per property: the whitelist, the generated file, what it imports, the Coq files of the layer
@@ -4132,6 +4151,10 @@ def _m_bayer(sh, os, kr, kg, kb):
     return (nrow, ncol) + tuple((nrow // k[0], ncol // k[1]) for k in (kr, kg, kb))
 
 
+def _first_of(r):
+    return ('ok', r[1][0]) if r[0] == 'ok' else r
+
+
 def _m_fft(shape, os, tilt, N, scr=None):
     if tilt:
         return ('err', 'NotImplementedErr')
@@ -4153,6 +4176,9 @@ MIRROR.update({
     'fft_out_shape': lambda shape, os, tilt, N: _m_fft(shape, os, tilt, N),
     'fft_out_shape_default': lambda os, tilt, N: _m_fft(None, os, tilt, N),
     'fft_out_shape_scratch': lambda shape, os, scr, tilt, N: _m_fft(shape, os, tilt, N, scr),
+    'fft_crop_shape': lambda shape, os, tilt, N: _first_of(_m_fft(shape, os, tilt, N)),
+    'fft_crop_shape_default': lambda os, tilt, N: _first_of(_m_fft(None, os, tilt, N)),
+    'fft_crop_shape_scratch': lambda shape, os, scr, tilt, N: _first_of(_m_fft(shape, os, tilt, N, scr)),
 })
 
 
@@ -4209,7 +4235,7 @@ def _drv_adc(ndim):
     return drv
 
 
-def _drv_fft(L, shape, os, tilt, N, scr=None):
+def _drv_fft(L, shape, os, tilt, N, scr=None, crop=False):
     import numpy as np
     if not (1 <= os <= 3 and 2 <= min(N) and max(N) <= 24 and (shape is None or (1 <= min(shape) and max(shape) <= 30))
             and (scr is None or (1 <= min(scr) and max(scr) <= 30))):
@@ -4224,7 +4250,16 @@ def _drv_fft(L, shape, os, tilt, N, scr=None):
         kw['shape'] = tuple(shape)
     if scr is not None:
         kw['scratch'] = np.zeros(scr, dtype=complex)
-    loc, r = _trace_locals(L.propagate.propagate_fft, 'propagate_fft', 'lentil/propagate.py', w, du, **kw)
+    pads, orig_pad = [], L.pad
+
+    def spy(array, shape_, *a, **k):
+        pads.append(shape_)
+        return orig_pad(array, shape_, *a, **k)
+    L.pad = spy            # propagate.py calls it as lentil.pad(...)
+    try:
+        loc, r = _trace_locals(L.propagate.propagate_fft, 'propagate_fft', 'lentil/propagate.py', w, du, **kw)
+    finally:
+        L.pad = orig_pad
     if isinstance(r, NotImplementedError):
         return ('err', 'NotImplementedErr')
     if loc is None or 'fft_shape' not in loc or _ints(loc['fft_shape']) != tuple(N):
@@ -4233,6 +4268,8 @@ def _drv_fft(L, shape, os, tilt, N, scr=None):
         return ('err', 'ValueError')
     if isinstance(r, Exception):
         return SKIP
+    if crop:
+        return ('ok', _ints(pads[-1])) if pads else SKIP
     return ('ok', (_ints(loc['shape_out']), _ints(loc['shape'])))
 
 
@@ -4242,6 +4279,9 @@ DRIVER.update({
     'fft_out_shape': lambda L, shape, os, tilt, N: _drv_fft(L, shape, os, tilt, N),
     'fft_out_shape_default': lambda L, os, tilt, N: _drv_fft(L, None, os, tilt, N),
     'fft_out_shape_scratch': lambda L, shape, os, scr, tilt, N: _drv_fft(L, shape, os, tilt, N, scr),
+    'fft_crop_shape': lambda L, shape, os, tilt, N: _drv_fft(L, shape, os, tilt, N, crop=True),
+    'fft_crop_shape_default': lambda L, os, tilt, N: _drv_fft(L, None, os, tilt, N, crop=True),
+    'fft_crop_shape_scratch': lambda L, shape, os, scr, tilt, N: _drv_fft(L, shape, os, tilt, N, scr, crop=True),
 })
 
 
@@ -4275,6 +4315,8 @@ SAMPLER.update({
     'adc_order_3d': lambda rng: ((rng.randint(1, 4), rng.randint(1, 4), rng.randint(1, 4)),),
     'fft_out_shape': _s_fft, 'fft_out_shape_default': lambda rng: _s_fft(rng, default=True),
     'fft_out_shape_scratch': lambda rng: _s_fft(rng, scratch=True),
+    'fft_crop_shape': _s_fft, 'fft_crop_shape_default': lambda rng: _s_fft(rng, default=True),
+    'fft_crop_shape_scratch': lambda rng: _s_fft(rng, scratch=True),
 })
 PREF.update({
     'rebin_reshape': lambda sh, f, c: min(sh) >= 0 and f >= 1,
@@ -4285,6 +4327,9 @@ PREF.update({
     'fft_out_shape': lambda shape, os, tilt, N: os >= 1 and min(N) >= 2 and min(shape) >= 1,
     'fft_out_shape_default': lambda os, tilt, N: os >= 1 and min(N) >= 2,
     'fft_out_shape_scratch': lambda shape, os, scr, tilt, N: os >= 1 and min(N) >= 2 and min(shape) >= 1 and min(scr) >= 1,
+    'fft_crop_shape': lambda shape, os, tilt, N: os >= 1 and min(N) >= 2 and min(shape) >= 1,
+    'fft_crop_shape_default': lambda os, tilt, N: os >= 1 and min(N) >= 2,
+    'fft_crop_shape_scratch': lambda shape, os, scr, tilt, N: os >= 1 and min(N) >= 2 and min(shape) >= 1 and min(scr) >= 1,
 })
 
 
@@ -4948,8 +4993,14 @@ def _drv_basis(scalar, vectorize):
         if not all(1 <= v <= 6 for v in ms) or (k is not None and not 1 <= k <= 5):
             return SKIP
         modes = 4 if scalar else list(range(1, k + 1))
-        b = _zmod().zernike_basis(np.ones(ms), modes, vectorize=vectorize)
-        return _ints(b.shape)
+        with np.errstate(all='ignore'):
+            loc, r = _trace_locals(_zmod().zernike_basis, 'zernike_basis', 'lentil/zernike.py', np.ones(ms), modes,
+                                   vectorize=vectorize)
+        if not isinstance(r, Exception):
+            return _ints(r.shape)
+        if loc is not None and 'basis' in loc and not vectorize:
+            return _ints(loc['basis'].shape)       # (the cube was allocated before the failure)
+        return SKIP
     return drv
 
 
@@ -4965,16 +5016,33 @@ def _drv_compose_mode(L, ms, n, k):
         return orig(mask, index, *a, **kw)
     z.zernike = spy
     try:
-        z.zernike_compose(np.ones(ms), np.arange(1.0, n + 1))
+        with np.errstate(all='ignore'):
+            z.zernike_compose(np.ones(ms), np.arange(1.0, n + 1))
+    except Exception:      # noqa: BLE001   (the calls made before the failure were recorded)
+        pass
     finally:
         z.zernike = orig
-    return rec[k] if len(rec) == n else SKIP
+    return rec[k] if k < len(rec) else SKIP
 
 
 DRIVER.update({'basis_shape': _drv_basis(False, False), 'basis_shape_scalar_mode': _drv_basis(True, False),
                'basis_vectorized': _drv_basis(False, True), 'compose_mode': _drv_compose_mode})
 # the running code resolves the -1 of reshape: compare the row count and that the rest is the flattened mask
-PROJECT2['basis_vectorized'] = lambda want, args: (want[0], args[0][0] * args[0][1]) if want[1] == -1 else want
+def _resolve_reshape(want, args):
+    """numpy resolves one -1 of a reshape from the total size (modes * rows * columns)"""
+    total = args[1] * args[0][0] * args[0][1]
+    if list(want).count(-1) != 1:
+        return want
+    rest = 1
+    for v in want:
+        if v != -1:
+            rest *= v
+    if rest == 0 or total % rest:
+        return want
+    return tuple(total // rest if v == -1 else v for v in want)
+
+
+PROJECT2['basis_vectorized'] = _resolve_reshape
 SAMPLER.update({'basis_shape': lambda rng: ((_r(rng, 1, 6), _r(rng, 1, 6)), _r(rng, 1, 5)),
                 'basis_shape_scalar_mode': lambda rng: ((_r(rng, 1, 6), _r(rng, 1, 6)),),
                 'basis_vectorized': lambda rng: ((_r(rng, 1, 6), _r(rng, 1, 6)), _r(rng, 1, 5)),
